@@ -240,7 +240,7 @@ def check_consttype(name):
         args = ARGSETS[0] if uses_args else ()
         got, exp = run(mkc(), e, args), run(mkp(), e, args)
         if not strict_result_equal(got, exp):
-            _viol(res, f"consttype {name} {e!r}", "memo-constant-type-inside-equal-trees",
+            _viol(res, f"consttype {name} {H.stable_text(e)}", "memo-constant-type-inside-equal-trees",
                   f"{e!r}: memoizing mapper gives {got!r}, non-memoizing {exp!r}")
     res.paths = 1
     return res
